@@ -21,9 +21,6 @@ type PlanC25 struct {
 	Iters  []IterPlan `json:"iters"`
 	DelOps []FragOp   `json:"del_ops,omitempty"`
 	KeyOps []FragOp   `json:"key_ops,omitempty"`
-	// NoExclude runs classes listed as known findings instead of excluding
-	// them (set only by demonstration plans).
-	NoExclude bool `json:"no_exclude,omitempty"`
 }
 
 func genC25(t *rapid.T) PlanC25 {
@@ -433,7 +430,7 @@ func execC25(p PlanC25) (out evid.Outcome, err error) {
 			hi = &k
 		}
 		m.lower, m.upper = normBounds(lo, hi)
-		run := &iterRunner{m: m, resolve: resolve, boundary: bset, noExclude: p.NoExclude}
+		run := &iterRunner{m: m, resolve: resolve, boundary: bset}
 		opts := sstable.IterOptions{
 			FilterBlockSizeLimit: sstable.NeverUseFilterBlock,
 			ReaderProvider:       sstable.MakeTrivialReaderProvider(r),
@@ -468,7 +465,8 @@ func execC25(p PlanC25) (out evid.Outcome, err error) {
 			return out, fmt.Errorf("iterator Close: %w", err)
 		}
 		seekOnBoundary += run.seekOnBoundary
-		out.Counters["class_"+sigBoundsAfterNextPrefix] += run.classHits
+		out.Counters["mono_fwd_setbounds_seeks"] += run.monoFwdSeeks
+		out.Counters["mono_fwd_setbounds_seeks_from_overshot_position"] += run.overshootHit
 		out.Counters["ops"] += run.nOps
 		out.Counters["tsun_seeks"] += run.tsunUsed
 		out.Counters["prefix_nil_alternatives"] += run.nilOKTaken
@@ -541,32 +539,6 @@ func sampleC25(p PlanC25) any {
 		"iters": len(p.Iters), "ops": nops, "first_points": first}
 }
 
-// demoBoundsAfterNextPrefix is a minimal demonstration of the candidate finding
-// sigBoundsAfterNextPrefix: one key per data block, upper bound c@0 inside the
-// versions of prefix c.
-func demoBoundsAfterNextPrefix() PlanC25 {
-	pt := func(p string, s int, seq uint64) Point {
-		return Point{K: K{P: p, S: s}, Seq: seq, Kind: uint8(base.InternalKeyKindSet), VLen: 1}
-	}
-	hi := KeyRef{K: K{P: "c", S: 0}}
-	return PlanC25{
-		NoExclude: true,
-		T: Table{
-			Opts:   TableOpts{Format: 5, BlockSize: 1, IndexBlockSize: 4096, Restart: 16, Compression: "none", Bundle: 16},
-			Points: []Point{pt("b", 1, 1), pt("c", 6, 1), pt("c", 3, 1), pt("c", 0, 1), pt("ca", 7, 1)},
-		},
-		Iters: []IterPlan{{
-			Hi: &hi,
-			Ops: []Op{
-				{Abs: opSeekGE + 1, Key: KeyRef{K: K{P: "c", S: -1}}},
-				{Abs: opNextPrefix + 1},
-				{Abs: opSetBounds + 1, Mono: 1},
-				{Abs: opSeekGE + 1, Key: KeyRef{K: K{P: "c", S: 0}}},
-			},
-		}},
-	}
-}
-
 func TestC25(t *testing.T) {
 	evid.Run(t, evid.Spec[PlanC25]{
 		ID: "C25", Level: "exploration",
@@ -578,11 +550,11 @@ func TestC25(t *testing.T) {
 		Assumptions: []string{
 			"keys are testkeys keys (prefix of letters, optional @integer suffix); the '_synthetic' suffix variant of the comparer is not generated",
 			"block-property *filters* on reads (other than the obsolete-key filter in C29) are not generated",
+			"NextPrefix is not issued while the iterator's upper bound is a suffixed key (pebble.Iterator bars it, iterator.go processBounds)",
 			"Prev after a forward seek answered nil under TrySeekUsingNext, and any relative step after SeekPrefixGE returned nil, are not issued (undetermined by the contract)",
 		},
 		Gen: genC25, Exec: execC25,
 		Quick: 3000, Thorough: 8000,
-		Known:  []evid.Known[PlanC25]{{Signature: sigBoundsAfterNextPrefix, Plan: demoBoundsAfterNextPrefix()}},
 		Sample: sampleC25,
 	})
 }
